@@ -7,7 +7,7 @@ From Flocq Require Import Core BinarySingleNaN.
 From SV Require Import Num.Mod360 Num.Mod360Proofs Num.AngleSites Num.AngleSitesProofs
                        Num.Dec6 Num.Dec6Proofs Num.Dec6CarveProofs Num.VecText Num.VecTextProofs Num.Mod360Id Num.VecTextFloat SM.FrozenOps SM.FrozenOpsProofs SM.FrozenCopy SM.FrozenCopyProofs
                        SM.FrozenCopyValue SM.FrozenCopyValueProofs Num.AngleText Num.AngleTextProofs
-                       Num.AngleCtor Num.AngleCtorProofs SM.FrozenHash SM.FrozenHashProofs.
+                       Num.AngleCtor Num.AngleCtorProofs SM.FrozenHash SM.FrozenHashProofs Num.SpecStrip Num.SpecStripProofs.
 Import ListNotations.
 
 (** ------------------------------------------------------------------ (a) range *)
@@ -256,6 +256,38 @@ Theorem c05_format6_shape_refuted :
   format6 cfg_pinned {| dneg := true; dm := 1; de := (-30)%Z |} = [45; 48]%N /\
   shape_ok (fmt_parts cfg_pinned {| dneg := true; dm := 1; de := (-30)%Z |}) = false.
 Proof. exact format6_shape_refuted. Qed.
+
+(** ------------------------------------------------------------------ (c) text: __format__ with a user spec (round 4) *)
+
+(** What Vec.__format__ / Angle.__format__ do to the text Python's format(component, spec) produced, for every
+    configuration read from the source that passes [spec_cfg_ok]: a fixed-point text  pre ++ "." ++ frac  ([pre] = sign,
+    padding, integer ss_digits, separators: anything without '.', 'e', 'E'; [frac] ss_digits) loses the trailing zeros of the
+    fraction, and the dot when nothing is left - and nothing else. *)
+Theorem c05_spec_post_fixed : forall k pre frac,
+  spec_cfg_ok k = true -> spec_neg_zero_fix k = false ->
+  ss_has 46 pre = false -> ss_has 101 pre = false -> ss_has 69 pre = false -> ss_digits frac = true ->
+  exists (frac' : list N) n, frac = (frac' ++ repeat 48%N n)%list /\ (forall p x, frac' = (p ++ [x])%list -> x <> 48%N) /\
+    spec_post k (pre ++ 46%N :: frac)%list = (pre ++ (match frac' with [] => [] | _ => 46%N :: frac' end))%list.
+Proof. exact spec_post_fixed. Qed.
+
+(** a text with an exponent is handed on unchanged (its trailing zeros belong to the exponent) *)
+Theorem c05_spec_post_exponent : forall k s,
+  guard_no_exp k = true -> dot_outside k = false \/ (forall p, s <> (p ++ [46%N])%list) ->
+  ss_has 101 s = true \/ ss_has 69 s = true -> spec_post k s = s.
+Proof. exact spec_post_exponent. Qed.
+
+(** a text without a dot is handed on unchanged *)
+Theorem c05_spec_post_no_dot : forall k s,
+  guard_dot k = true -> spec_neg_zero_fix k = false -> ss_has 46 s = false -> spec_post k s = s.
+Proof. exact spec_post_no_dot. Qed.
+
+(** the pinned tree before repair 48ba917 (no exponent ss_guard): "1.5e+20" -> "1.5e+2", "0.0e+00" -> "0.0e+" *)
+Theorem c05_spec_post_unguarded_refuted :
+  spec_cfg_ok cfg_unguarded = false /\
+  spec_post cfg_unguarded [49; 46; 53; 101; 43; 50; 48]%N = [49; 46; 53; 101; 43; 50]%N /\
+  spec_post cfg_unguarded [48; 46; 48; 101; 43; 48; 48]%N = [48; 46; 48; 101; 43]%N /\
+  spec_post cfg_guarded [49; 46; 53; 101; 43; 50; 48]%N = [49; 46; 53; 101; 43; 50; 48]%N.
+Proof. exact spec_post_unguarded_refuted. Qed.
 
 (** ------------------------------------------------------------------ (c) text: reading back *)
 
